@@ -62,6 +62,7 @@ pub fn info() -> PropInfo {
             "ver.2", "ver.3", "ver.4", "ver.5", "addr.1", "addr.2", "addr.4", "addr.8", "fmt.32", "fmt.64", "endian.le", "endian.be",
             "read.frames.debug_frame.equal", "read.frames.eh_frame.equal", "frames.debug_frame", "frames.eh_frame.absptr", "frames.eh_frame.pcrel", "eh_pe.reloc", "lists.judged",
             "asm.read.equal", "asm.sites.visited", "asm.site.header.debug_abbrev_offset", "asm.site.addr", "asm.site.expr_addr", "asm.site.strp", "asm.site.line_strp", "asm.site.strp_sup", "asm.site.ref_addr.v2_address_sized", "asm.site.ref_addr.offset_sized", "asm.site.sec_offset", "asm.site.legacy.data4", "asm.site.legacy.data8", "asm.site.via_indirect.1", "asm.site.via_indirect.2", "asm.site.legacy.via_indirect", "asm.plain.ref4", "asm.plain.ref_sig8", "asm.plain.index_form", "asm.plain.constant", "asm.neutral", "asm.unit.debug_types", "asm.unit.v5_type", "asm.unit.v5_skeleton",
+            "asm.tables.str_offsets.equal", "asm.tables.addr.equal", "asm.tables.rnglists.equal", "asm.tables.loclists.equal", "asm.tables.aranges.equal", "asm.tables.pubnames.equal", "asm.tables.sites.visited", "asm.tables.site.str_offsets.entry", "asm.tables.site.addr.entry", "asm.tables.site.rnglists.start_end", "asm.tables.site.rnglists.base_address", "asm.tables.site.rnglists.start_length", "asm.tables.site.loclists.start_end", "asm.tables.site.loclists.base_address", "asm.tables.site.loclists.DW_OP_addr", "asm.tables.site.info.str_offsets_base", "asm.tables.site.info.addr_base", "asm.tables.site.info.rnglists_base", "asm.tables.site.info.loclists_base", "asm.tables.site.info.ranges.sec_offset", "asm.tables.site.info.location.sec_offset", "asm.tables.site.aranges.debug_info_offset", "asm.tables.site.aranges.address", "asm.tables.site.pubnames.debug_info_offset", "asm.tables.site.pubtypes.debug_info_offset",
         ],
         run,
     }
